@@ -67,7 +67,9 @@ func (w *World) stallInit() {
 
 // stallHere blocks the calling provider handler until the scenario (or the watchdog) releases it.
 func (w *World) stallHere() {
-	w.stallInit()
+	if w.stall == nil {
+		return // only a scenario that has armed the watchdog (stallInit) may stall an answer
+	}
 	w.countFault("provider-answer-stalled")
 	w.stall.stalled.Add(1)
 	select {
